@@ -689,18 +689,19 @@ func checkIRIAdmission(res *Result, S *Streams, pm *PropModel, rule, fn string) 
 				continue
 			}
 			nIRI++
-			conds, ok := guardsOf(pm.ElemDeser, cs.lit)
+			conds, ok := iriAdmissionAtoms(pm, cs.lit, 0)
 			var extra []string
 			hasScheme := false
-			for _, c := range conds {
-				t := strings.ReplaceAll(types.ExprString(c), " ", "")
+			for _, t := range conds {
 				switch {
 				case strings.HasSuffix(t, "==nil") || strings.HasPrefix(t, "nil=="):
-				case strings.Contains(t, ".Scheme)>0") || strings.Contains(t, ".Scheme)!=0") || strings.Contains(t, ".Scheme!=\"\"") || strings.HasSuffix(t, ".IsAbs()"):
+				case strings.Contains(t, ".Scheme)>0") || strings.Contains(t, ".Scheme)!=0") || strings.Contains(t, ".Scheme)>=1") || strings.Contains(t, ".Scheme!=\"\"") || strings.HasSuffix(t, ".IsAbs()"):
 					hasScheme = true
-				case t == "ok":
+				case t == "ok" || strings.HasSuffix(t, "ok") && !strings.Contains(t, "!"):
+				case strings.HasSuffix(t, "!=nil") && !strings.Contains(t, "err"):
+					// the parsed URL / the helper's result is there
 				default:
-					extra = append(extra, types.ExprString(c))
+					extra = append(extra, t)
 				}
 			}
 			res.check(ok && hasScheme && len(extra) == 0, rule, fn, S.pos(cs.lit), pm.Name+" takes a string as an IRI exactly when it parses and has a scheme", fmt.Sprintf("scheme test present: %v; further conditions: %v — IRIs without a host (urn:, mailto:, as:Public, …) or other admitted IRIs are turned into unknown values for this property only", hasScheme, extra))
